@@ -351,6 +351,17 @@ def regenerate_coqproject():
         p.write_text(text)
 
 
+def _big_stack():
+    """coqc overflows the default 8 MB stack on long list literals (large case files): raise the
+    soft limit of the child to the hard limit"""
+    import resource
+    try:
+        soft, hard = resource.getrlimit(resource.RLIMIT_STACK)
+        resource.setrlimit(resource.RLIMIT_STACK, (hard, hard))
+    except (ValueError, OSError):
+        pass
+
+
 def coq_make(targets, timeout=1500):
     """Full .vo build of the given targets (relative to coq/). Returns (ok, log)."""
     lk = _lock()
@@ -361,7 +372,7 @@ def coq_make(targets, timeout=1500):
             subprocess.run(["coq_makefile", "-f", "_CoqProject", "-o", "Makefile"],
                            cwd=COQ, capture_output=True, text=True, check=True)
         r = subprocess.run(["timeout", str(timeout), "make", f"-j{NCPU}"] + list(targets),
-                           cwd=COQ, capture_output=True, text=True)
+                           cwd=COQ, capture_output=True, text=True, preexec_fn=_big_stack)
     finally:
         lk.close()
     return r.returncode == 0, (r.stdout + r.stderr)
@@ -374,7 +385,8 @@ def coqc_file(path, timeout=600, outdir=None):
     if outdir is not None:
         cmd += ["-o", str(Path(outdir) / (Path(path).stem + ".vo"))]
     cmd.append(str(path))
-    r = subprocess.run(cmd, capture_output=True, text=True, cwd=str(Path(path).parent))
+    r = subprocess.run(cmd, capture_output=True, text=True, cwd=str(Path(path).parent),
+                       preexec_fn=_big_stack)
     return r.returncode, r.stdout + r.stderr
 
 
@@ -411,7 +423,7 @@ def coqchk_props(pid, timeout=2400):
     """Independent re-check of Props/<pid>.vo and everything it depends on."""
     t0 = time.time()
     r = subprocess.run(["timeout", str(timeout), "coqchk", "-silent", "-o", "-R", str(COQ), "Hy",
-                        f"Hy.Props.{pid}"], capture_output=True, text=True, cwd=str(COQ))
+                        f"Hy.Props.{pid}"], capture_output=True, preexec_fn=_big_stack, text=True, cwd=str(COQ))
     out = r.stdout + r.stderr
 
     def section(title):
